@@ -154,6 +154,12 @@ macro_rules! flavour_impl {
                         if doc["edges"].as_str() == Some("err") { outer.push(json!("ill-typed")); } else { outer.push(doc["edges"].clone()); }
                     }
                 }
+                if doc.get("announce").map(|a| !a.is_null()).unwrap_or(false) {
+                    // CBOR only (JSON has no length prefix): re-encode by hand with lying array headers
+                    let bytes = crate::cbor_announce(&outer, &doc["announce"]);
+                    let g3: Result<Graph<K, N, E>, _> = serde_cbor::from_slice(&bytes);
+                    return match g3 { Ok(_) => json!({"result": "ok"}), Err(_) => json!({"result": "err"}) };
+                }
                 let text = serde_json::to_string(&Value::Array(outer.clone())).unwrap();
                 let g2: Result<Graph<K, N, E>, _> = serde_json::from_str(&text);
                 let bytes = serde_cbor::to_vec(&Value::Array(outer)).unwrap();
@@ -324,14 +330,26 @@ macro_rules! flavour_impl {
                             None => log.borrow_mut().push(edge_json(e)),
                         }
                     };
+                    // builder calls in the order the scenario asks for (default: priority, target, transpose, closure)
+                    let order: Vec<String> = spec.get("order").and_then(|o| o.as_array())
+                        .map(|a| a.iter().map(|x| x.as_str().unwrap().to_string()).collect())
+                        .unwrap_or_else(|| ["prio", "target", "transpose", "method"].iter().map(|x| x.to_string()).collect());
                     macro_rules! finish {
-                        ($s:ident) => {{
-                            if let Some(t) = target.as_ref() { $s = $s.target(t); }
-                            sel!($kind, { if transpose { $s = $s.transpose(); } }, {});
-                            match method {
-                                "filter" => { $s = $s.filter(&mut filt); }
-                                "foreach" => { $s = $s.for_each(&mut fe); }
-                                _ => {}
+                        ($s:ident, $prio:block) => {{
+                            let mut filt_o = Some(&mut filt);
+                            let mut fe_o = Some(&mut fe);
+                            for step in order.iter() {
+                                match step.as_str() {
+                                    "prio" => $prio,
+                                    "target" => { if let Some(t) = target.as_ref() { $s = $s.target(t); } }
+                                    "transpose" => { sel!($kind, { if transpose { $s = $s.transpose(); } }, {}); }
+                                    "method" => match method {
+                                        "filter" => { if let Some(f) = filt_o.take() { $s = $s.filter(f); } }
+                                        "foreach" => { if let Some(f) = fe_o.take() { $s = $s.for_each(f); } }
+                                        _ => {}
+                                    },
+                                    x => panic!("builder step {}", x),
+                                }
                             }
                             let keep = spec.get("keep").and_then(|k| k.as_str()).map(|k| k.to_string());
                             match mode {
@@ -360,8 +378,8 @@ macro_rules! flavour_impl {
                         }};
                     }
                     res = self.with_handle(&spec["root"], |root| match spec["alg"].as_str().unwrap() {
-                        "bfs" => { let mut s = root.bfs(); finish!(s) }
-                        "dfs" => { let mut s = root.dfs(); finish!(s) }
+                        "bfs" => { let mut s = root.bfs(); finish!(s, {}) }
+                        "dfs" => { let mut s = root.dfs(); finish!(s, {}) }
                         "pfs" if repeat && mode == "search" => {
                             let mut s = root.pfs();
                             s = if spec["prio"].as_str() == Some("max") { s.max() } else { s.min() };
@@ -379,8 +397,7 @@ macro_rules! flavour_impl {
                         }
                         "pfs" => {
                             let mut s = root.pfs();
-                            s = if spec["prio"].as_str() == Some("max") { s.max() } else { s.min() };
-                            finish!(s)
+                            finish!(s, { s = if spec["prio"].as_str() == Some("max") { s.max() } else { s.min() }; })
                         }
                         x => panic!("alg {}", x),
                     });
